@@ -3,7 +3,7 @@
   processing, hence in every reachable state (`run_inv`).
 -/
 import DymVerif.Lemmas.CoreForkInv2
-namespace DymVerif.Core
+namespace DymVerif.Core.Fork
 
 -- ---------------------------------------------------------------- money movers leave records alone
 
@@ -606,4 +606,4 @@ theorem run_inv (p : Params) (ops : List Op) : Inv (run p ops) := by
     · intro id r hg; simp [getRa, init] at hg
   · intro b o hb; exact step_inv hb
 
-end DymVerif.Core
+end DymVerif.Core.Fork
